@@ -247,10 +247,10 @@ func (s *Storer) GetReader(offset int64, verifyCrc bool) (*Reader, error) {
 	s.mux.RLock()
 	defer s.mux.RUnlock()
 
-	s.dataSetMux.Lock()
-	defer s.dataSetMux.Unlock()
-
-	ds := s.dataSet
+	// s.mux keeps the data set from being replaced meanwhile. dataSetMux must not be held here :
+	// with verifyCrc the new reader asks the storer whether the segment has a writer, which takes
+	// dataSetMux again (a self deadlock, no log reader could ever be opened)
+	ds := s.getDataSet()
 	if !ds.InRange(offset) {
 		return nil, os.ErrNotExist
 	}
